@@ -168,7 +168,9 @@ class Series:
         elif data is None:
             vals, idx = [], []
         else:
-            vals = npm._as_list(data) if not isinstance(data, (set, frozenset)) else list(data)
+            if isinstance(data, (set, frozenset)) or type(data).__name__ in ("ShellMutableSet", "LinearSet"):
+                raise TypeError("'set' type is unordered")       # pandas refuses sets
+            vals = npm._as_list(data)
             idx = None
         if index is not None:
             idx2 = index._values if isinstance(index, Index) else list(index)
